@@ -63,6 +63,13 @@ theorem C18_bridge_glue (isResp isErr : Bool) :
     DbSessionGen.flaskExitPassesType = true ∧ DbSessionGen.isAllowedException isResp isErr = (isResp && !isErr) :=
   ⟨rfl, rfl⟩
 
+/-- every statement with which an object is saved (INSERT / UPDATE / DELETE in `_save_created_`, `_save_updated_`,
+    `_save_deleted_`) opens the session's transaction itself (`start_transaction=True`): a per-object `obj.flush()` as the
+    first write of an optimistic session does not run in autocommit mode.  (The model treats a row write followed by
+    `obj.flush()` like any other pending write; that the real statement stays inside the transaction is what this bridge
+    pins in the source and what the object-flush grid of the engine checks on the real code.) -/
+theorem C18_bridge_row_saves : DbSessionGen.rowSavesStartTransaction = true := rfl
+
 /-! ### nested sessions: only the outermost exit commits or rolls back
 
 Bodies are arbitrary programs.  Since this round a program may also call the module-level `commit()` / `rollback()`
